@@ -639,7 +639,14 @@ impl<H: Hal, const SIZE: usize> VirtQueue<H, SIZE> {
             len = (*self.used.as_ptr()).ring[last_used_slot as usize].len;
         }
 
-        if index != token {
+        // The device must only report chains which are outstanding. A descriptor with no buffer
+        // set is free, so recycling it again would corrupt the free list.
+        let outstanding = self
+            .desc_shadow
+            .get(usize::from(index))
+            .is_some_and(|desc| desc.len != 0);
+
+        if index != token || !outstanding {
             // The device used a different descriptor chain to the one we were expecting.
             #[cfg(virtio_drivers_verif)]
             crate::verif::emit(crate::verif::Event::PopEnd {
